@@ -435,14 +435,14 @@ theorem Acc.nameTok (f : Field) (hn : validIdent f.name = true) (hs : (match f.s
     have := Acc.seq ls (Acc.str ['*']) hs (Acc.ident hn) (fun _ _ => trivial) (fun r _ => (tokStart_ident hn).noLayout)
     exact this.castT rfl (by simp)
 
-/-- **a declarator is accepted, whatever follows** -/
-theorem Acc.field (f : Field) (h : f.ok = true) : Acc (.ref "data_field") f.text f.tokens (fun _ => True) := by
+/-- type, name (read by `eName`), optional array suffix, `;` -/
+theorem field_core (f : Field) (h : f.ok = true) (eName : Expr) (hB : Acc eName f.nameText f.nameToks NoIdentStart) :
+    Acc (.seq (.alt (.ref "ident") (.ref "basic_type")) (.seq eName (.seq (.opt (.ref "array")) (.str [';']))))
+      f.text f.tokens (fun _ => True) := by
   simp only [Field.ok, Bool.and_eq_true] at h
   obtain ⟨⟨⟨⟨⟨⟨hty, hl1⟩, hstar⟩, hname⟩, hl2⟩, harr⟩, hsep⟩ := h
-  refine Acc.silent find_df rfl rfl ?_
   have hC := Acc.arrSemiOk f.arr harr
-  have hB := Acc.nameTok f hname hstar
-  have hBC : Acc (.seq (.alt (.ref "option") (.ref "ident")) (.seq (.opt (.ref "array")) (.str [';'])))
+  have hBC : Acc (.seq eName (.seq (.opt (.ref "array")) (.str [';'])))
       (f.nameText ++ (f.l2.text ++ arrSemi f.arr)) (f.nameToks ++ arrToks f.arr) (fun _ => True) := by
     refine Acc.seq f.l2 hB hl2 hC ?_ ?_
     · intro r _
@@ -492,5 +492,11 @@ theorem Acc.field (f : Field) (h : f.ok = true) : Acc (.ref "data_field") f.text
     obtain ⟨c, cs, e, hws, hsl, _, _⟩ := hnameStart (f.l2.text ++ arrSemi f.arr ++ r)
     have e' : (f.nameText ++ (f.l2.text ++ arrSemi f.arr)) ++ r = c :: cs := by simpa [List.append_assoc] using e
     rw [e']; exact noLayout_starts hws hsl rfl
+
+/-- **a declarator is accepted, whatever follows** -/
+theorem Acc.field (f : Field) (h : f.ok = true) : Acc (.ref "data_field") f.text f.tokens (fun _ => True) := by
+  have h' := h
+  simp only [Field.ok, Bool.and_eq_true] at h'
+  exact Acc.silent find_df rfl rfl (field_core f h _ (Acc.nameTok f h'.1.1.1.2 h'.1.1.1.1.2))
 
 end Fx.Parse
